@@ -65,7 +65,9 @@ func fit(args map[string]string) error {
 			if rng.Intn(5) == 0 {
 				add("engine", "tiflash")
 			}
-			stores = append(stores, core.NewStoreInfo(&metapb.Store{Id: uint64(i), Labels: labels}))
+			// fitting looks at labels only: the state of a store (a peer may still sit on an offline or tombstone store) plays no part
+			state := []metapb.StoreState{metapb.StoreState_Up, metapb.StoreState_Up, metapb.StoreState_Offline, metapb.StoreState_Tombstone}[rng.Intn(4)]
+			stores = append(stores, core.NewStoreInfo(&metapb.Store{Id: uint64(i), Labels: labels, State: state}))
 			jstores = append(jstores, trace.Ev{"id": i, "labels": jl})
 		}
 		np := 1 + rng.Intn(maxPeers)
